@@ -30,19 +30,19 @@ T = {
          'translator + correspondence, reference interpreter'),
  'C09': ('Coq theorem: first sets of the transcribed calc_first are exactly the derivation-defined sets (soundness unconditional, completeness from a closure certificate evaluated per grammar); follow/predict by K2 correspondence + textbook oracle on an independent BNF',
          'Rocq model + K2 correspondence, textbook oracle'),
- 'C10': ('Coq model of LL1Validator::check tied by K2; verdicts from the definition with textbook sets; theorems pending',
+ 'C10': ('Coq theorem: E011/E013/E014 are reported exactly where the definition of an LL(1) conflict holds (all maps, all expressions outside operator branches); E012 and the tie by K2 correspondence + definitional oracle with textbook sets',
          'Rocq model + K2 correspondence, definitional oracle'),
  'C11': ('Coq theorem on the driver model: no parser/skeleton/graph file for a rejected grammar (whole domain); "compiles" decided by rustc on every sampled accepted grammar incl. adversarial names; real binary for rejected ones',
          'Rocq proof over the driver table + rustc on emitted parsers'),
- 'C12': ('exploration: exhaustive short lexeme sequences, mutants, byte soup through the real front end under catch_unwind; span/tiling oracles',
+ 'C12': ('exploration: exhaustive short lexeme sequences, mutants, byte soup through the real front end under catch_unwind; span/tiling oracles; parser stage additionally tied to the Coq model (K3 on the checked-in src/frontend/generated.rs vs Exec.v, ghost defined on every run)',
          'exhaustive/random exploration of the real front end'),
  'C13': ('exploration: generator AST vs typed view of the real front end under random layouts',
          'round-trip exploration'),
- 'C14': ('Coq model of RecoverySetGenerator tied by K2; brute-force dominators on an independent graph as reference; theorems pending',
+ 'C14': ('Coq theorems: the elimination loop computes exactly the dominators (paths in the predecessor graph) and recovery = union of dominator follow sets minus first/follow of the body, under certificates evaluated per grammar; K2 correspondence + brute-force dominators on an independent graph',
          'Rocq model + K2 correspondence, brute-force dominator oracle'),
  'C15': ('partial: cross-process determinism and behaviour under permuted declarations observed on the real binary and compiled parsers; theorems pending',
          'differential runs of the real binary and generated parsers'),
- 'C16': ('translation validation + pairwise comparison of parses with and without trivia; theorems pending',
+ 'C16': ('translation validation + pairwise comparison of parses with and without trivia; Coq theorems for one clause only (the current token and the predicate lookahead are never skipped tokens, for every program/input)',
          'translator + K1/K3 correspondence, trivia-pair oracle'),
  'C17': ('exploration: formatter on arbitrary texts (character preservation) and on valid grammars in random layouts (tokens, diagnostics)',
          'exploration of the real formatter'),
@@ -55,7 +55,13 @@ T = {
 }
 
 
+# properties whose Props file proves one clause only: the claimed level stays the level of the rest
+PARTIAL_THEOREMS = ('C16',)
+
+
 def level(pid):
+    if pid in PARTIAL_THEOREMS:
+        return 'translation_validation'
     if os.path.exists(os.path.join(V, 'coq', 'Props', pid + '.v')):
         return 'proof'
     if pid in ('C12', 'C13', 'C17', 'C18', 'C20'):
